@@ -3,7 +3,7 @@ From Coq Require Import Arith NArith List Bool Sorted.
 From Blue Require Import Scrunch.ModelBits Scrunch.Model Scrunch.ModelWT Scrunch.ProofsBits
   Scrunch.ProofsSorted Scrunch.ProofsSuffix Scrunch.ProofsIAP Scrunch.ProofsSearch Scrunch.ProofsSigma
   Scrunch.ProofsDoc Scrunch.ProofsSampled Scrunch.ProofsCompressed Scrunch.ProofsWT1 Scrunch.ProofsWT2
-  Scrunch.ProofsWT3 Scrunch.ProofsWT4.
+  Scrunch.ProofsWT3 Scrunch.ProofsWT4 Scrunch.ModelPrefixWT Scrunch.ProofsPrefixWT.
 Import ListNotations.
 Local Open Scope nat_scope.
 From Blue Require Import Scrunch.Props_C19.
@@ -14,6 +14,9 @@ Check C19_wavelet_psi_meets_the_psi_interface : forall text, let T := sigma_stri
 Check C19_reference_document_is_the_scan : forall text rb, check_record_boundaries text rb = true -> exists r, construct_refdoc text rb = Ok r /\ (forall needle, ref_search r needle = occurrences text needle /\ ref_count r needle = length (occurrences text needle)) /\ (forall off, off < length text -> ref_lookup r off = Ok (spec_record_of rb off)) /\ (forall k, k < length rb -> ref_retrieve r k = Ok (spec_record text rb k) /\ ref_offset_of r k = Ok (nth k rb 0)) /\ (forall k, length rb <= k -> ref_retrieve r k = Err /\ ref_offset_of r k = Err).
 Check C19_invalid_divisions_refused_alike : forall text rb, check_record_boundaries text rb = false -> construct_compressed text rb = Err /\ construct_reference_psi_doc text rb = Err /\ construct_refdoc text rb = Err.
 Check C19_empty_text_has_no_valid_division : forall rb, check_record_boundaries [] rb = false.
+Check C19_prefix_wavelet_tree_answers_as_the_symbol_list : forall enc dec cf text, (forall s, In s text -> enc s = Some (cf s) /\ dec (cf s) = Some s) -> forall fuel t, pt_build enc fuel text = Ok t -> (forall x, x < length text -> pt_access dec t x = wt_access text x) /\ (forall q, In q text -> forall x, x <= length text -> pt_rank_q enc t q x = wt_rank_q text q x) /\ (forall q, In q text -> forall k, pt_select_q enc t q k = wt_select_q text q k).
+Check C19_prefix_wavelet_tree_constructs_for_prefix_free_codes : forall enc dec cf text, (forall s, In s text -> enc s = Some (cf s) /\ dec (cf s) = Some s) -> forall fuel, (forall s, In s text -> cf s <> []) -> prefix_free (map cf text) -> max_len (map cf text) < fuel -> exists t, pt_build enc fuel text = Ok t.
+Check C19_fixed_width_wavelet_tree : forall text, exists t, fw_tree text = Ok (t, fw_chars text) /\ (forall x, x < length text -> pt_access (fw_dec (fw_chars text)) t x = wt_access text x) /\ (forall q, In q text -> forall x, x <= length text -> pt_rank_q (fw_enc (fw_chars text)) t q x = wt_rank_q text q x) /\ (forall q, In q text -> forall k, pt_select_q (fw_enc (fw_chars text)) t q k = wt_select_q text q k).
 Check C19_specification_is_the_plain_scan : forall text needle, StronglySorted lt (occurrences text needle) /\ forall p, In p (occurrences text needle) <-> p < length text /\ firstn (length needle) (skipn p text) = needle.
 Check C19_specification_record_of_offset : forall n rb off, valid_boundaries n rb -> off < n -> let r := spec_record_of rb off in r < length rb /\ nth r rb 0 <= off /\ (forall r', r < r' -> r' < length rb -> off < nth r' rb 0).
 Check C19_inverse_and_psi_one_pass : forall sa, NoDup sa -> Forall (fun v => v < length sa) sa -> 0 < length sa -> inverse_and_psi sa = Ok (inverse sa, psi_of sa (inverse sa)).
